@@ -64,3 +64,10 @@ package ws
 //@   ensures name == mangos.OptionNoDelay ==> isnil(result1) && result0 == iface(true)
 //@   ensures name != mangos.OptionNoDelay && has(o, name) ==> isnil(result1) && result0 == o[name]
 //@   ensures name != mangos.OptionNoDelay && !has(o, name) ==> result1 == mangos.ErrBadOption && isnil(result0)
+//@
+//@ func (*listener).Accept
+//@   ensures isnil(result1) ==> len(l.pending) == len(at("loop1:head", l.pending)) - 1 && cast("*wsPipe", result0) == at("loop1:head", l.pending[len(l.pending)-1])
+//@   ensures isnil(result1) ==> forall(k, 0, len(l.pending), l.pending[k] == at("loop1:head", l.pending[k]))
+//@
+//@ func (*listener).SetOption
+//@   before call:set#1 assert l.ug.Subprotocols == old(l.ug.Subprotocols)
